@@ -4,6 +4,7 @@ mod configcheck;
 mod corrupt;
 mod indep;
 mod modea;
+mod modec;
 mod modee;
 mod model;
 mod mux;
@@ -32,7 +33,11 @@ macro_rules! dispatch {
             "C06" => runner::$f::<props::c06::C06>($($args),*),
             "C07" => runner::$f::<props::c07::C07>($($args),*),
             "C08" => runner::$f::<props::c08::C08>($($args),*),
+            "C10" => runner::$f::<props::c10::C10>($($args),*),
+            "C11" => runner::$f::<props::c11::C11>($($args),*),
+            "C13" => runner::$f::<props::c13::C13>($($args),*),
             "C14" => runner::$f::<props::c14::C14>($($args),*),
+            "C15" => runner::$f::<props::c15::C15>($($args),*),
             "C17" => runner::$f::<props::c17::C17>($($args),*),
             other => {
                 eprintln!("unknown property {other}");
